@@ -156,6 +156,8 @@ func runC03(c *Ctx) {
 	r4 := c.Rule("R4", "pre-images logged before the in-place flip (shared with C08.R2)", 4)
 	rulePreImagesBeforeFlip(c, r4)
 
+	r8 := c.Rule("R8", "an actively persisted store writes an updated value before the commit point, so it must never write it under the committed blob's id: in itemActionTracker.manage(updateAction) the re-keying of the item (item.ID = NewUUID) is reached for actively persisted stores whether or not ValueNeedsFetch is still set - reading the value first clears that flag", 2)
+	activePersistRekeyRule(c, r8)
 	r7 := c.Rule("R7", "uncommitted in-place changes of a node stay private: the host-wide L1 node cache stores clones of what it is given and hands out materialised copies only, so a transaction never works on the object the cache holds (shared with C38.R2/R3)", 3)
 	l1IsolationRules(c, r7, r7)
 	r6 := c.Rule("R6", "a handle becomes visible through the caches only after it is in the registry file: the file-system registry's Add / UpdateNoLocks refresh L1 and L2 only after the disk write succeeded (shared with C20.R2) - otherwise readers resolve the flipped handle of a commit whose registry write then fails", 4)
@@ -249,4 +251,48 @@ func readPathRules(c *Ctx, r2 string) {
 		okL := len(ver) == 1 && len(gl.Find(hit)) >= 1 && len(gl.notOnlyVia(ver, 1, hit)) == 0 && w.mentionsCall(fl, fl.Body, kActive)
 		c.Check(okL, r2, "L1 cache: an entry is a hit only under the handle's active id with an equal version", fl.Decl.Pos(), "nodeVersion == handle.Version on the entry of GetActiveID()", "the process-wide node cache can serve an entry whose version differs from the handle's (stale or uncommitted node)", nil)
 	}
+}
+
+// activePersistRekeyRule (C03.R8 = C07.R10).
+func activePersistRekeyRule(c *Ctx, r string) {
+	w := c.W
+	f := w.Fn("common.itemActionTracker.manage")
+	g := w.G(f)
+	c.Analysed(f)
+	info := f.Pkg.TypesInfo
+	idF := w.Field("btree", "Item", "ID")
+	vnf := w.Field("btree", "Item", "ValueNeedsFetch")
+	ap := w.Field("sop", "StoreInfo", "IsValueDataActivelyPersisted")
+	rekey := g.Find(func(n *GNode) bool {
+		as, ok := n.Ast.(*ast.AssignStmt)
+		if !ok || len(as.Lhs) != 1 || len(as.Rhs) != 1 {
+			return false
+		}
+		return fieldOfSelector(info, as.Lhs[0]) == idF && w.mentionsCall(f, as.Rhs[0], "sop.NewUUID")
+	})
+	c.Check(len(rekey) >= 1, r, "manage: an updated out-of-node value gets a new blob id", f.Decl.Pos(), fmt.Sprintf("%d re-key site(s)", len(rekey)), "no `item.ID = sop.NewUUID()` found in manage", nil)
+	if len(rekey) == 0 {
+		return
+	}
+	// reachable with ValueNeedsFetch == false?
+	vnfConds := g.condNodes(func(e ast.Expr) bool { return fieldOfSelector(info, e) == vnf })
+	r0 := g.Reach([]int{g.Entry}, nil, edgeCut(vnfConds, 1))
+	reach := false
+	for _, n := range rekey {
+		if r0.Seen[n.ID] {
+			reach = true
+		}
+	}
+	mentionsAP := len(g.condNodes(func(e ast.Expr) bool {
+		hit := false
+		ast.Inspect(e, func(x ast.Node) bool {
+			if sx, ok := x.(ast.Expr); ok && fieldOfSelector(info, sx) == ap {
+				hit = true
+			}
+			return !hit
+		})
+		return hit
+	})) > 0
+	c.Check(reach && mentionsAP, r, "manage: the re-key does not depend on ValueNeedsFetch alone", rekey[0].Ast.Pos(), "reachable with ValueNeedsFetch false when the store is actively persisted",
+		"the new blob id is assigned only while ValueNeedsFetch is set, and itemActionTracker.Get clears that flag when the value is read: read-then-update in an actively persisted store writes the new value over the COMMITTED blob before the commit point (other transactions read the uncommitted value) and a rollback then deletes that blob - the committed value of the key is lost for good", nil)
 }
